@@ -58,6 +58,8 @@ func c08Dispatch(c *Ctx, r *Report, a *Anchors) {
 	}
 	n := 0
 	abstractSeen := map[string]bool{}
+	tAlias := wrapperAliases(fn, tP)
+	isT := func(v ssa.Value) bool { return tAlias[stripIface(v)] }
 	for _, ci := range callsIn(fn) {
 		if ci.Common().StaticCallee() != a.fieldSels {
 			continue
@@ -68,91 +70,98 @@ func c08Dispatch(c *Ctx, r *Report, a *Anchors) {
 				targ = arg
 			}
 		}
-		kinds := caseTypes(ci.Block(), tP)
-		// kinds whose assertion dominates (single case)
-		for _, f := range assertFacts(ci.Block()) {
-			if f.holds && stripIface(f.x) == ssa.Value(tP) {
-				kinds = append(kinds, f.t)
-			}
+		if targ == nil {
+			continue
 		}
+		// the container type handed on may have been picked in the arms and handed on in one place: each value it
+		// can hold is judged where it was picked
+		leaves := phiLeavesUntil(stripIface(targ), isT)
 		seen := map[string]bool{}
-		for _, k := range kinds {
-			name := derefNamed(k)
-			if seen[name] {
+		for _, lf := range leaves {
+			if isNilConst(lf.val) {
 				continue
 			}
-			seen[name] = true
-			if name != "Interface" && name != "Union" {
-				continue
+			at := ci.Block()
+			var gs []guard
+			if lf.pred != nil {
+				at = lf.pred
+				gs = edgeGuards(lf.pred, lf.phi.Block())
+			} else {
+				gs = blockGuards(at)
 			}
-			n++
-			abstractSeen[name] = true
-			key := fmt.Sprintf("%s: abstract arm *%s resolves selections against the concrete object type", fnName(fn), name)
-			static := stripIface(targ) == ssa.Value(tP)
-			if ta, ok := stripIface(targ).(*ssa.TypeAssert); ok && stripIface(ta.X) == ssa.Value(tP) {
-				static = true
+			kinds := caseTypesOf(at, isT)
+			// kinds whose assertion dominates (single case)
+			for _, f := range assertFacts(at) {
+				if f.holds && isT(f.x) {
+					kinds = append(kinds, f.t)
+				}
 			}
-			if ex, ok := stripIface(targ).(*ssa.Extract); ok {
-				if ta, ok := ex.Tuple.(*ssa.TypeAssert); ok && stripIface(ta.X) == ssa.Value(tP) {
+			// ... or is the test of the edge itself (an arm that does nothing but pick the type)
+			if lf.pred != nil && len(lf.pred.Instrs) > 0 {
+				if ifi, ok := lf.pred.Instrs[len(lf.pred.Instrs)-1].(*ssa.If); ok && lf.pred.Succs[0] == lf.phi.Block() {
+					if f, ok := assertFactOf(guard{ifi.Cond, true, ifi}); ok && f.holds && isT(f.x) {
+						kinds = append(kinds, f.t)
+					}
+				}
+			}
+			for _, k := range kinds {
+				name := derefNamed(k)
+				if name != "Interface" && name != "Union" {
+					continue
+				}
+				static := isT(lf.val)
+				if ta, ok := stripIface(lf.val).(*ssa.TypeAssert); ok && isT(ta.X) {
 					static = true
 				}
-			}
-			if static {
-				r.flag("C08.DISPATCH", key, ci.Pos(), "the selection set of a value behind an abstract-typed field is resolved against the static abstract type itself: __typename reports the abstract type's name and fragments on the concrete type never apply")
-				continue
-			}
-			// concrete: must be selected under objType == meta
-			typeEqMeta := func(g guard) bool {
-				bo, ok := g.cond.(*ssa.BinOp)
-				if !ok || !((bo.Op == token.EQL && g.val) || (bo.Op == token.NEQ && !g.val)) {
-					return false
+				if ex, ok := stripIface(lf.val).(*ssa.Extract); ok {
+					if ta, ok := ex.Tuple.(*ssa.TypeAssert); ok && isT(ta.X) {
+						static = true
+					}
 				}
-				isTypeOf := func(v ssa.Value) bool {
-					call, ok := v.(*ssa.Call)
-					return ok && isFuncCall(call, "reflect", "TypeOf")
+				if seen[name] {
+					continue
 				}
-				isMeta := func(v ssa.Value) bool {
-					ex, ok := v.(*ssa.Extract)
-					if !ok {
-						if call, ok := v.(*ssa.Call); ok {
-							if cal := call.Call.StaticCallee(); cal != nil && c.inPkg(cal) {
-								return true
-							}
-						}
+				seen[name] = true
+				n++
+				abstractSeen[name] = true
+				key := fmt.Sprintf("%s: abstract arm *%s resolves selections against the concrete object type", fnName(fn), name)
+				if static {
+					r.flag("C08.DISPATCH", key, ci.Pos(), "the selection set of a value behind an abstract-typed field is resolved against the static abstract type itself: __typename reports the abstract type's name and fragments on the concrete type never apply")
+					continue
+				}
+				// concrete: must be selected under objType == meta
+				typeEqMeta := func(g guard) bool {
+					bo, ok := g.cond.(*ssa.BinOp)
+					if !ok || !((bo.Op == token.EQL && g.val) || (bo.Op == token.NEQ && !g.val)) {
 						return false
 					}
-					call, ok := ex.Tuple.(*ssa.Call)
-					return ok && call.Call.StaticCallee() != nil && c.inPkg(call.Call.StaticCallee())
-				}
-				return (isTypeOf(bo.X) && isMeta(bo.Y)) || (isTypeOf(bo.Y) && isMeta(bo.X))
-			}
-			sel := hasGuard(ci.Block(), typeEqMeta)
-			if !sel {
-				// the member was picked first and is handed on afterwards: every non-nil value the
-				// argument can hold was assigned on an edge where TypeOf(obj) == meta holds
-				ls, _ := phiLeaves(stripIface(targ))
-				nonNil := 0
-				all := true
-				for _, lf := range ls {
-					if isNilConst(lf.val) {
-						continue
+					isTypeOf := func(v ssa.Value) bool {
+						call, ok := v.(*ssa.Call)
+						return ok && isFuncCall(call, "reflect", "TypeOf")
 					}
-					nonNil++
-					okLeaf := false
-					if lf.pred != nil {
-						for _, g := range edgeGuards(lf.pred, lf.phi.Block()) {
-							if typeEqMeta(normGuard(g)) {
-								okLeaf = true
+					isMeta := func(v ssa.Value) bool {
+						ex, ok := v.(*ssa.Extract)
+						if !ok {
+							if call, ok := v.(*ssa.Call); ok {
+								if cal := call.Call.StaticCallee(); cal != nil && c.inPkg(cal) {
+									return true
+								}
 							}
+							return false
 						}
+						call, ok := ex.Tuple.(*ssa.Call)
+						return ok && call.Call.StaticCallee() != nil && c.inPkg(call.Call.StaticCallee())
 					}
-					if !okLeaf {
-						all = false
+					return (isTypeOf(bo.X) && isMeta(bo.Y)) || (isTypeOf(bo.Y) && isMeta(bo.X))
+				}
+				sel := false
+				for _, g := range gs {
+					if typeEqMeta(normGuard(g)) {
+						sel = true
 					}
 				}
-				sel = all && nonNil > 0
+				r.check("C08.DISPATCH", key, ci.Pos(), sel, "the concrete type is not selected by comparing reflect.TypeOf(obj) with the candidate's bound Go type")
 			}
-			r.check("C08.DISPATCH", key, ci.Pos(), sel, "the concrete type is not selected by comparing reflect.TypeOf(obj) with the candidate's bound Go type")
 		}
 	}
 	for _, k := range []string{"Interface", "Union"} {
